@@ -35,7 +35,24 @@ def handlers : List (String × Handler) := [
     let b ← ratOf (← field j "b")
     let ys ← listOf intOf (← field j "ys")
     pure <| jObj [("opt", jNat (nvOpt p h b)), ("costs", jRats (ys.map (nvCost p h b))),
-                  ("n", jRats (ys.map (lossN p))), ("nbar", jRats (ys.map (lossNbar p))), ("mean", jRat (mean p))])
+                  ("n", jRats (ys.map (lossN p))), ("nbar", jRats (ys.map (lossNbar p))), ("mean", jRat (mean p)),
+                  ("n2", jRats (ys.map (loss2 p))), ("n2bar", jRats (ys.map (loss2bar p))),
+                  ("nbarCdf", jRats (ys.map fun y => lossNbarCdf p y.toNat))]),
+  ("closedloss", fun j => do
+    let fam ← (← field j "family").getStr?
+    let a ← listOf ratOf (← field j "args")
+    let g (i : Nat) : Rat := a.getD i 0
+    let pair : Rat × Rat := match fam with
+      | "poisson" => poissonLoss (g 0) (g 1) (g 2) (g 3)
+      | "poisson2" => poissonLoss2 (g 0) (g 1) (g 2) (g 3)
+      | "stdnormal" => stdNormalLoss (g 0) (g 1) (g 2)
+      | "stdnormal2" => stdNormalLoss2 (g 0) (g 1) (g 2)
+      | "normal" => normalLoss (g 0) (g 1) (g 2) (g 3) (g 4)
+      | "negbin" => negBinLoss (g 0) (g 1) (g 2) (g 3) (g 4) (g 5)
+      | "gamma" => gammaLoss (g 0) (g 1) (g 2) (g 3) (g 4)
+      | "uniform" => uniformLoss (g 0) (g 1) (g 2)
+      | _ => (0, 0)
+    pure <| jRats [pair.1, pair.2])
 ]
 
 end Driver.SS
